@@ -61,10 +61,12 @@ class TlvHead(packet.Packet):
         formats.UInt16PayloadLenField('length', default=None),
     ]
 
-    def post_dissection(self, pkt):
-        ''' Verify consistency of packet. '''
-        formats.verify_sized_item(self.length, self.payload)
-        packet.Packet.post_dissection(self, pkt)
+    def extract_padding(self, s):
+        ''' The item value is delimited by its length field, what follows
+        belongs to the next item of the list. '''
+        if self.length is not None and len(s) < self.length:
+            raise formats.VerifyError('Item value shorter than its length {0}'.format(self.length))
+        return s[:self.length], s[self.length:]
 
 
 class SessionExtendHeader(TlvHead):
